@@ -609,7 +609,7 @@ fn replay_typed<V: VT>(case: &Value) -> bool {
 
 fn main() {
     let args: Vec<String> = std::env::args().collect();
-    util::install_guards(30);
+    util::install_guards(90);
     if args.get(1).map(String::as_str) == Some("replay") {
         let failed = replay(&args[2]);
         println!("replay: {}", if failed { "STILL FAILS" } else { "passes" });
